@@ -399,6 +399,65 @@ def find(tree, qual):
     return node
 
 
+def add_pattern_binding(repo):
+    """PatternRegistry.add_pattern: which time options the REGISTERED pattern ends up with, for a list of multipliers, a
+    Pattern object without time options and a Pattern object that already has some -> [(case, "model" | "own" | other text)]"""
+    tree = ast.parse(open(os.path.join(repo, "wntr/network/model.py")).read())
+    fn = find(tree, "PatternRegistry.add_pattern")
+    model_opts = ("self._options.time",)
+    out = []
+    for case, is_obj, own_none in (("list", False, None), ("objectUnbound", True, True), ("objectBound", True, False)):
+        src = "own" if is_obj else None
+
+        def truth(t):
+            if isinstance(t, ast.UnaryOp) and isinstance(t.op, ast.Not):
+                return not truth(t.operand)
+            txt = ast.unparse(t)
+            if txt == "isinstance(pattern, Pattern)":
+                return is_obj
+            if txt in ("pattern.time_options is None", "pattern._time_options is None"):
+                if not is_obj:
+                    raise BrokenTie("add_pattern tests the time options of something that is not a Pattern")
+                return own_none
+            if txt in ("pattern.time_options is not None", "pattern._time_options is not None"):
+                return not own_none
+            raise BrokenTie("add_pattern: unexpected test `%s`" % txt)
+
+        def run(stmts):
+            nonlocal src, is_obj
+            for st in stmts:
+                if isinstance(st, ast.Expr) and isinstance(st.value, ast.Constant):
+                    continue
+                if isinstance(st, ast.Assert):
+                    continue
+                if isinstance(st, ast.If):
+                    txt = ast.unparse(st.test)
+                    if "time_options" in txt or "isinstance(pattern, Pattern)" in txt:
+                        run(st.body if truth(st.test) else st.orelse)
+                        continue
+                    if "pattern" in txt and ("_data" in txt or "name" in txt):
+                        continue  # duplicate-name check
+                    continue
+                if isinstance(st, ast.Assign) and len(st.targets) == 1:
+                    tg = ast.unparse(st.targets[0])
+                    if tg == "pattern" and isinstance(st.value, ast.Call) and ast.unparse(st.value.func) == "Pattern":
+                        kw = {k.arg: ast.unparse(k.value) for k in st.value.keywords}
+                        to = kw.get("time_options")
+                        src = "none" if to is None else ("model" if to in model_opts else to)
+                        is_obj = True
+                        continue
+                    if tg in ("pattern.time_options", "pattern._time_options"):
+                        v = ast.unparse(st.value)
+                        src = "model" if v in model_opts else v
+                        continue
+                if isinstance(st, (ast.Raise, ast.Return)):
+                    return
+
+        run(fn.body)
+        out.append((case, src))
+    return out
+
+
 def generate(repo=None):
     repo = repo or vlib.REPO
     el = ast.parse(open(os.path.join(repo, "wntr/network/elements.py")).read())
@@ -540,6 +599,11 @@ def generate(repo=None):
                 text.append(h)
                 done.append(h)
         text.append(d)
+    binds = add_pattern_binding(repo)
+    text.append("/-- `PatternRegistry.add_pattern` (wntr/network/model.py): the time options the registered pattern is evaluated with, for a list")
+    text.append("of multipliers, a Pattern object without time options, a Pattern object that already carries time options -/")
+    text.append("def addPatternTimeOptions : List (String × String) := [%s]" % ", ".join('("%s", "%s")' % (a, b.replace('"', "'")) for a, b in binds))
+    text.append("")
     text.append("end Wntr.Metrics.GenShape")
     return "\n".join(text) + "\n"
 
